@@ -251,6 +251,69 @@ fn check_state(w: &Window<L>, m: &VecDeque<L>, full: bool, rng: &mut Rng, r: &mu
 							Err(p) => r.violate(&sig(name, &format!("panic:{}", p.class())), &p.msg, || case(&format!("{name}.skip({k}).nth"))),
 						}
 					}
+					// consumers that std routes through `fold` / `try_fold` / `nth` on the iterator taken by value (an override of
+					// one of these on the window's iterators must agree with plain next())
+					let res = guard(|| {
+						let adv = || {
+							let mut it = $mk;
+							for _ in 0..k {
+								it.next();
+							}
+							it
+						};
+						let folded: Vec<L> = adv().fold(Vec::new(), |mut v, x| {
+							v.push(*x);
+							v
+						});
+						let mut each: Vec<L> = Vec::new();
+						adv().for_each(|x| each.push(*x));
+						let cnt = adv().count();
+						let mx = adv().copied().max();
+						let mn = adv().copied().min();
+						let sum = adv().fold(0u64, |a, x| a.wrapping_add(*x));
+						let j = if rest.is_empty() { 0 } else { rng.below(rest.len() as u64 + 2) as usize };
+						let skipped: Vec<L> = adv().skip(j).copied().collect();
+						let st = 1 + rng.below(4) as usize;
+						let stepped: Vec<L> = adv().step_by(st).copied().collect();
+						let hint = adv().size_hint();
+						let all_pos = adv().position(|_| false);
+						let found = adv().copied().find(|x| Some(*x) == rest.last().copied());
+						(folded, each, cnt, mx, mn, sum, j, skipped, st, stepped, hint, all_pos, found)
+					});
+					match res {
+						Ok((folded, each, cnt, mx, mn, sum, j, skipped, st, stepped, hint, all_pos, found)) => {
+							let want_sum = rest.iter().fold(0u64, |a, x| a.wrapping_add(*x));
+							let bad = if folded != rest {
+								Some("fold")
+							} else if each != rest {
+								Some("for_each")
+							} else if cnt != rest.len() {
+								Some("count")
+							} else if mx != rest.iter().copied().max() || mn != rest.iter().copied().min() {
+								Some("max/min")
+							} else if sum != want_sum {
+								Some("sum")
+							} else if skipped != rest.iter().skip(j).copied().collect::<Vec<L>>() {
+								Some("skip")
+							} else if stepped != rest.iter().step_by(st).copied().collect::<Vec<L>>() {
+								Some("step_by")
+							} else if hint != (rest.len(), Some(rest.len())) {
+								Some("size_hint")
+							} else if all_pos.is_some() || found != rest.last().copied() {
+								Some("position/find")
+							} else {
+								None
+							};
+							if let Some(what) = bad {
+								r.violate(&sig(name, &format!("partially-consumed|{what}")), "a consumer of a partially consumed iterator disagrees with the remaining sequence", || case(&format!("{name} after {k} next(): {what}")));
+							}
+						}
+						Err(p) => {
+							if n > 0 {
+								r.violate(&sig(name, &format!("panic:{}", p.class())), &p.msg, || case(&format!("{name}.skip({k}) consumers")))
+							}
+						}
+					}
 				}};
 			}
 			if dir == 0 {
